@@ -335,3 +335,109 @@ func TestVerifC02Node(t *testing.T) {
 		})
 	})
 }
+
+// C02.batch — the same claim through the batch API: one MessageBatch is
+// reused for the whole case while some goroutines add messages to it and
+// others publish it, with no coordination between them. Every message that was
+// added must reach the subscription exactly once (never twice, never lost in
+// favour of another one's second copy).
+func TestVerifC02Batch(t *testing.T) {
+	vRun(t, "C02.batch", vCount(300, 6000), func(c *vCase) {
+		c.Bubble(func() {
+			r := vNewRig(c)
+			defer r.Close()
+			valDelay := time.Duration(c.Range(0, 3)) * time.Millisecond
+			opts := []Option{WithDefaultValidator(func(ctx context.Context, p peer.ID, m *Message) ValidationResult {
+				if valDelay > 0 && len(m.Data)%2 == 0 {
+					time.Sleep(valDelay)
+				}
+				return ValidationAccept
+			})}
+			if err := r.Start("gossipsub", opts...); err != nil {
+				c.Inconclusive("node: %v", err)
+				return
+			}
+			nd := r.nd
+			tp, err := nd.ps.Join("t")
+			if err != nil {
+				panic(err)
+			}
+			sub, err := tp.Subscribe()
+			if err != nil {
+				panic(err)
+			}
+			var mu sync.Mutex
+			got := map[string]int{}
+			go func() {
+				for {
+					m, err := sub.Next(nd.ctx)
+					if err != nil {
+						return
+					}
+					mu.Lock()
+					got[string(m.Data)]++
+					mu.Unlock()
+				}
+			}()
+			var mb MessageBatch
+			nAdd := c.Range(4, 30)
+			nPub := c.Range(2, 12)
+			type plan struct {
+				at   time.Duration
+				data string
+			}
+			var adds, pubs []plan
+			for i := 0; i < nAdd; i++ {
+				adds = append(adds, plan{time.Duration(c.Range(0, 20)) * time.Millisecond, fmt.Sprintf("b%03d%s", i, strings.Repeat("x", i%3))})
+			}
+			for i := 0; i < nPub; i++ {
+				pubs = append(pubs, plan{at: time.Duration(c.Range(0, 22)) * time.Millisecond})
+			}
+			var wg sync.WaitGroup
+			var added sync.Map
+			for _, a := range adds {
+				wg.Add(1)
+				go func(a plan) {
+					defer wg.Done()
+					time.Sleep(a.at)
+					if err := tp.AddToBatch(context.Background(), &mb, []byte(a.data)); err == nil {
+						added.Store(a.data, true)
+					}
+				}(a)
+			}
+			for _, p := range pubs {
+				wg.Add(1)
+				go func(p plan) {
+					defer wg.Done()
+					time.Sleep(p.at)
+					nd.ps.PublishBatch(&mb)
+				}(p)
+			}
+			wg.Wait()
+			nd.ps.PublishBatch(&mb) // whatever was added last
+			vSettle(200 * time.Millisecond)
+			mu.Lock()
+			defer mu.Unlock()
+			nAdded := 0
+			added.Range(func(k, _ any) bool {
+				nAdded++
+				d := k.(string)
+				switch n := got[d]; {
+				case n == 0:
+					c.Violatef(map[string]string{"kind": "batched_message_lost"}, "message %q was added to the batch and never delivered (%d adds, %d publishes); deliveries: %v", d, nAdd, nPub, got)
+				case n > 1:
+					c.Violatef(map[string]string{"kind": "duplicate_within_window", "via": "batch"}, "message %q was delivered %d times (%d adds, %d publishes)", d, n, nAdd, nPub)
+				}
+				return !c.Violated()
+			})
+			c.Sig(nAdd/5, nPub/3, valDelay)
+			c.Nontrivial(nAdded >= 4)
+			c.Count("batched_messages", nAdded)
+			c.Count("publish_batch_calls", nPub+1)
+			c.State(nAdd/5, nPub/3)
+			if c.Idx < 2 {
+				c.Sample(map[string]any{"adds": nAdd, "publishes": nPub, "validator_delay": valDelay.String(), "delivered": len(got)})
+			}
+		})
+	})
+}
